@@ -247,6 +247,16 @@ func Inq(fd int) int {
 	return n
 }
 
+// Outq is the number of bytes in the send queue of fd that the other side has
+// not acknowledged yet (SIOCOUTQ).
+func Outq(fd int) int {
+	n, err := unix.IoctlGetInt(fd, unix.TIOCOUTQ)
+	if err != nil {
+		return -1
+	}
+	return n
+}
+
 // WaitInq waits until exactly `want` bytes are readable on fd. It polls the
 // kernel, it never guesses: false means the segment was not delivered within
 // the budget and the scenario cannot be trusted.
